@@ -53,12 +53,15 @@ IsEnd(p, flag)   == \/ p = "connect" /\ (flag \div 2) % 2 = 1
                     \/ p = "grpcweb" /\ flag >= 128
 
 (* What one complete frame means to the reader. *)
+\* The read limit is about messages: terminator frames (end-of-stream envelope, trailer frame) are not
+\* messages.  (The pinned tree applies the limit to every envelope: known finding C09/13, DESIGN 8.)
+Limited(s, f) == s.limit > 0 /\ ~Special(f.flag)
 FrameClass(s, f) ==
-  IF s.limit > 0 /\ f.len > s.limit THEN "limit"
+  IF Limited(s, f) /\ f.len > s.limit THEN "limit"
   ELSE IF f.len = 0 /\ ~Special(f.flag) THEN "zero"
   ELSE IF Compressed(f.flag) /\ f.len > 0 /\ s.enc = "none" THEN "nocomp"
   ELSE IF Compressed(f.flag) /\ f.len > 0 /\ f.corrupt THEN "inflate"
-  ELSE IF Compressed(f.flag) /\ s.limit > 0 /\ f.ilen > s.limit THEN "limit"
+  ELSE IF Compressed(f.flag) /\ Limited(s, f) /\ f.ilen > s.limit THEN "limit"
   ELSE IF Special(f.flag) THEN
        IF s.side = "handler" THEN "special_request"
        ELSE IF ~IsEnd(s.proto, f.flag) THEN "flags"
@@ -86,7 +89,7 @@ Final(s, c) == IF c # "end" /\ s.proto = "grpc" /\ s.side = "client" /\ s.traile
 (* -------- the whole-wire oracle: never mentions reads (C03) -------- *)
 EndClasses(s, i) ==
   LET partial == Avail(s) - Start(s, i)
-  IN  (IF i <= Len(s.frames) /\ partial >= 5 /\ s.limit > 0 /\ s.frames[i].len > s.limit
+  IN  (IF i <= Len(s.frames) /\ partial >= 5 /\ Limited(s, s.frames[i]) /\ s.frames[i].len > s.limit
        THEN Final(s, "limit") ELSE {}) \cup {TailClass(s, partial)}
 
 RECURSIVE Scan(_, _, _)
@@ -144,7 +147,7 @@ RMsg == /\ res = "open" /\ Complete
 
 (* reader: the declared length exceeds the limit -- decided on the prefix alone *)
 RLimit == /\ res = "open" /\ PrefixIn
-          /\ sc.limit > 0 /\ sc.frames[fi].len > sc.limit
+          /\ Limited(sc, sc.frames[fi]) /\ sc.frames[fi].len > sc.limit
           /\ res' \in Final(sc, "limit")
           /\ UNCHANGED <<sc, delivered, eof, fi, out, hold>>
 
